@@ -20,6 +20,11 @@
 //! time, fast loading off, each request issued while the tape is silent between blocks; the
 //! outcome (IX, DE, carry, RAM) must equal the `ld_bytes` model and what the same request gives on a
 //! twin machine that uses fast loading. This also validates the model used by C10.
+//!
+//! CPU-time monitor (`cpu_wave_case`): one block played on the full machine while the CPU loops
+//! through instructions with internal cycles on contended addresses; EAR sampled by emulated INs
+//! and stamped in CPU T-states; every pulse and the pilot/data trains bounded from both sides
+//! against [nominal, nominal+32] ("whatever instructions the CPU is executing").
 use crate::host::{Machine, RegFile};
 use crate::json::{hex, J};
 use crate::report::{par_map, Ctx, Evidence};
@@ -410,6 +415,196 @@ fn ear_port_case(ctx: &Ctx, case_id: u64, rng: &mut Rng, st: &mut (u64, u64, u64
     }
 }
 
+
+// ------------------------------------------------------------------------------------------------
+// The waveform as the CPU sees it, while the ULA keeps stalling the CPU
+// ------------------------------------------------------------------------------------------------
+struct CpuWaveStats {
+    samples: u64,
+    pulses: u64,
+    trains: u64,
+    max_gap: u64,
+    by_kind: [u64; 4],
+}
+
+const CPU_WAVE_KINDS: [&str; 4] = ["code+data+stack+IR contended", "data contended", "code contended", "nothing contended"];
+
+/// One data block is played while the CPU runs a loop made of instructions with internal
+/// (no-MREQ) cycles – INC (HL), BIT n,(HL), RLC (HL), RRD, ADD IY,BC, EX (SP),HL, JR, DJNZ,
+/// INC (IX+d), LD A,I – whose code, operands, stack and IR sit in contended memory (three kinds) or
+/// not (control). After every 1..2 instructions EAR is sampled through an emulated IN from 0xBFFE
+/// and stamped with the CPU time (frames * frame length + frame clock) at the end of that IN; an
+/// edge therefore lies between two stamps (minus up to 18 T for the place of the sample inside
+/// the IN). Every pulse between two edges gets a lower and an upper bound for its length in CPU
+/// T-states; the statement allows [nominal, nominal + 32] "whatever instructions the CPU is
+/// executing", so a lower bound above nominal + 32 or an upper bound below nominal is a violation.
+/// The same is done for the whole pilot train and the whole data train, where the sampling
+/// uncertainty enters once instead of once per pulse.
+fn cpu_wave_case(ctx: &Ctx, case_id: u64, rng: &mut Rng, st: &mut CpuWaveStats) {
+    let is128 = rng.chance(1, 3);
+    let kind = (case_id % 4) as usize;
+    let flag = *rng.pick(&[0xFFu8, 0xA5, 0x01]);
+    let n = 2 + rng.below(10) as usize;
+    let blocks = vec![mk_block(flag, &rng.bytes(n), true)];
+    let img = tap_image(&blocks);
+    let mut fill = Rng::fork(ctx.seed ^ 0xC11_C0, case_id);
+    let mut m = tape_machine(is128, rng.bool(), &mut fill);
+    m.emu.load_tape(Tape::Tap(crate::host::mem_asset(img))).expect("load_tape");
+    let code: u16 = if kind == 0 || kind == 2 { *rng.pick(&[0x4100u16, 0x6000, 0x7E00]) } else { 0x9000 };
+    let data: u16 = if kind == 0 || kind == 1 { *rng.pick(&[0x5000u16, 0x5AFF, 0x7FF0]) } else { 0xA000 };
+    let stack: u16 = if kind == 0 { 0x5F00 } else { 0xBF00 };
+    let ireg: u8 = if kind == 0 { 0x40 + rng.below(0x40) as u8 } else { 0x3F };
+    let menu: [&[u8]; 11] = [&[0x34], &[0xCB, 0x7E], &[0xCB, 0x06], &[0xED, 0x67], &[0xFD, 0x09], &[0xE3, 0xE3], &[0x18, 0x00], &[0x10, 0x00], &[0xDD, 0x34, 0x00], &[0xED, 0x57], &[0x23, 0x2B]];
+    let mut prog: Vec<u8> = vec![];
+    let mut picks = vec![];
+    for _ in 0..(4 + rng.below(12)) {
+        let k = rng.below(menu.len() as u64) as usize;
+        picks.push(k);
+        prog.extend_from_slice(menu[k]);
+    }
+    prog.extend_from_slice(&[0xC3, code as u8, (code >> 8) as u8]);
+    m.poke_bytes(code, &prog);
+    m.poke_bytes(stack, &[data as u8, (data >> 8) as u8]);
+    let mut rf = RegFile::default();
+    rf.pc = code;
+    rf.sp = stack;
+    rf.hl = data;
+    rf.ix = data;
+    rf.i = ireg;
+    rf.im = 1;
+    m.set_regs(&rf);
+    m.set_clock(rng.below(m.frame_len() as u64) as usize);
+    m.emu.play_tape();
+    let burst = 1 + rng.below(2);
+    let fl = m.frame_len() as u64;
+    let skip = rng.below(60);
+    let wit = |extra: J| jobj! {"case"=>case_id, "stream"=>"C11 cpu-wave", "is128"=>is128, "kind"=>CPU_WAVE_KINDS[kind], "code"=>code, "data"=>data, "stack"=>stack, "i"=>ireg,
+        "program_hex"=>hex(&prog), "burst"=>burst, "frames_skipped"=>skip, "blocks"=>blocks_json(&blocks), "info"=>extra};
+    // free running start (the tape plays, nobody looks)
+    let c0 = m.clock() as u64;
+    m.run_frames(skip as usize);
+    let mut wraps = skip;
+    let mut prev_clock = m.clock() as u64;
+    let pilot_n = PILOT_DATA_MIN as u64;
+    let b = &blocks[0];
+    let ones: u64 = b.iter().map(|x| x.count_ones() as u64).sum();
+    let data_nominal = SYNC1 + SYNC2 + 2 * (ones * BIT1 + (b.len() as u64 * 8 - ones) * BIT0);
+    let budget = c0 + pilot_n * (PILOT + 40) + data_nominal + 40 * (2 + 16 * b.len() as u64) + 300_000;
+    let mut level: Option<bool> = None;
+    let mut last_t = 0u64;
+    // (stamp before, stamp at) of every level change
+    let mut edges: Vec<(u64, u64)> = vec![];
+    let mut now = wraps * fl + prev_clock;
+    while now < budget {
+        for _ in 0..burst {
+            m.step();
+        }
+        let v = m.inp(0xBFFE) & 0x40 != 0;
+        let c = m.clock() as u64;
+        if c < prev_clock {
+            wraps += 1;
+        }
+        prev_clock = c;
+        now = wraps * fl + c;
+        st.samples += 1;
+        if let Some(l) = level {
+            st.max_gap = st.max_gap.max(now - last_t);
+            if l != v {
+                edges.push((last_t, now));
+            }
+        }
+        level = Some(v);
+        last_t = now;
+    }
+    const J_IN: u64 = 18;
+    let end = m.regs();
+    if end.pc < code || end.pc as usize >= code as usize + prog.len() || end.iff1 {
+        ctx.inconclusive(&format!("C11 cpu-wave: the sampling program left its loop (case {}, pc {:04x}) (harness problem)", case_id, end.pc));
+        return;
+    }
+    if edges.len() < 40 {
+        ctx.violation("c11-cpu-wave:no-waveform", &format!("only {} level changes seen on EAR while a block was playing", edges.len()), wit(J::Null));
+        return;
+    }
+    // pulse k lies between edge k and edge k+1
+    let lb = |k: usize| edges[k + 1].0.saturating_sub(edges[k].1 + J_IN);
+    let ub = |k: usize| edges[k + 1].1 - edges[k].0 + J_IN;
+    let npulses = edges.len() - 1;
+    // first pulse that can only be a sync pulse
+    let s = match (0..npulses).find(|&k| ub(k) < 1500) {
+        Some(s) => s,
+        None => {
+            ctx.violation("c11-cpu-wave:no-sync", "no pulse shorter than 1500 T followed the pilot tone", wit(jobj! {"edges"=>edges.len()}));
+            return;
+        }
+    };
+    let mut nominal: Vec<u64> = vec![PILOT; s];
+    nominal.push(SYNC1);
+    nominal.push(SYNC2);
+    for byte in b.iter() {
+        for bit in (0..8).rev() {
+            let l = if byte >> bit & 1 == 1 { BIT1 } else { BIT0 };
+            nominal.push(l);
+            nominal.push(l);
+        }
+    }
+    if npulses + 1 < nominal.len() {
+        ctx.violation("c11-cpu-wave:data-cut-short", &format!("{} pulses seen after the pilot tone, the block has {}", npulses - s, nominal.len() - s), wit(J::Null));
+        return;
+    }
+    // the last data pulse may have no closing edge (the pause follows): judge what is closed
+    let judged = nominal.len().min(npulses);
+    for k in 0..judged {
+        let (lo, hi) = (lb(k), ub(k));
+        st.pulses += 1;
+        if lo > nominal[k] + 32 {
+            ctx.violation(
+                "c11-cpu-wave:pulse-too-long",
+                &format!("pulse {} ({} T nominal) lasted at least {} CPU T-states (edges seen in ({}, {}] and ({}, {}])", k, nominal[k], lo, edges[k].0, edges[k].1, edges[k + 1].0, edges[k + 1].1),
+                wit(jobj! {"pulse"=>k, "sync_at"=>s}),
+            );
+            return;
+        }
+        if hi < nominal[k] {
+            ctx.violation(
+                "c11-cpu-wave:pulse-too-short",
+                &format!("pulse {} ({} T nominal) lasted at most {} CPU T-states (edges seen in ({}, {}] and ({}, {}])", k, nominal[k], hi, edges[k].0, edges[k].1, edges[k + 1].0, edges[k + 1].1),
+                wit(jobj! {"pulse"=>k, "sync_at"=>s}),
+            );
+            return;
+        }
+    }
+    // trains: pilot pulses 0..s, data pulses s..judged
+    for (name, from, to) in [("pilot", 0usize, s), ("data", s, judged)] {
+        if to <= from {
+            continue;
+        }
+        let nom: u64 = nominal[from..to].iter().sum();
+        let cnt = (to - from) as u64;
+        let lo = edges[to].0.saturating_sub(edges[from].1 + J_IN);
+        let hi = edges[to].1 - edges[from].0 + J_IN;
+        st.trains += 1;
+        if lo > nom + 32 * cnt {
+            ctx.violation(
+                &format!("c11-cpu-wave:{}-train-too-long", name),
+                &format!("{} {} pulses of together {} T nominal took at least {} CPU T-states (allowed: up to {} T)", cnt, name, nom, lo, nom + 32 * cnt),
+                wit(jobj! {"train"=>name, "sync_at"=>s}),
+            );
+            return;
+        }
+        if hi < nom {
+            ctx.violation(
+                &format!("c11-cpu-wave:{}-train-too-short", name),
+                &format!("{} {} pulses of together {} T nominal took at most {} CPU T-states", cnt, name, nom, hi),
+                wit(jobj! {"train"=>name, "sync_at"=>s}),
+            );
+            return;
+        }
+    }
+    st.by_kind[kind] += 1;
+    let _ = picks;
+}
+
 pub fn run(ctx: &Ctx) -> Evidence {
     // ---------------- component part
     let n_tapes = ctx.scale(256, 8000) as usize;
@@ -458,11 +653,23 @@ pub fn run(ctx: &Ctx) -> Evidence {
         st
     });
 
+    // ---------------- the waveform in CPU time under contention
+    let n_cw = ctx.scale(32, 480) as usize;
+    let cw = par_map(ctx.jobs(), n_cw, |i| {
+        let mut st = CpuWaveStats { samples: 0, pulses: 0, trains: 0, max_gap: 0, by_kind: [0; 4] };
+        if !selected(&only, "C11 cpu-wave", i as u64) {
+            return st;
+        }
+        let mut rng = Rng::fork(ctx.seed ^ 0xC11_C9A, i as u64);
+        cpu_wave_case(ctx, i as u64, &mut rng, &mut st);
+        st
+    });
+
     let mut ev = Evidence::new(
         "component: generated TAP images played by the real Tap pulse generator under six step partitions (1..16 T per process_clocks call); \
          every pulse classified into [nominal, nominal+32] windows and every block parsed (pilot count, sync, two equal pulses per bit, MSB first, \
          bytes equal to the tape, pause 0.9..1.1 s, order, stop at the end). system: real ROM LD-BYTES loading in real time from the playing tape, \
-         compared with the ld_bytes model and with a fast-loading twin machine. ear-port: twin machines sampling bit 6 through 0xBFFE and through even ports with other high/low bytes at the same instants (idle, playing, stopped, playing again). distinct = (partition, block length, flag) triples decoded + \
+         compared with the ld_bytes model and with a fast-loading twin machine. ear-port: twin machines sampling bit 6 through 0xBFFE and through even ports with other high/low bytes at the same instants (idle, playing, stopped, playing again). cpu-wave: one block played while the CPU loops through instructions with internal cycles whose code/operands/stack/IR are contended (3 kinds + control); EAR sampled by an emulated IN every 1..2 instructions and stamped in CPU T-states; every pulse, the pilot train and the data train bounded from both sides and compared with [nominal, nominal+32]. distinct = (partition, block length, flag) triples decoded + \
          (block length, DE, LOAD/VERIFY, outcome) request shapes",
     );
     let mut wave = WaveStats::new();
@@ -521,6 +728,22 @@ pub fn run(ctx: &Ctx) -> Evidence {
     ev.add("ear_port_samples_compared", es);
     ev.add("ear_port_level_changes_seen", ee);
     ev.add("ear_port_cases_with_both_levels", eb);
+    let mut cws = CpuWaveStats { samples: 0, pulses: 0, trains: 0, max_gap: 0, by_kind: [0; 4] };
+    for r in cw {
+        cws.samples += r.samples;
+        cws.pulses += r.pulses;
+        cws.trains += r.trains;
+        cws.max_gap = cws.max_gap.max(r.max_gap);
+        for k in 0..4 {
+            cws.by_kind[k] += r.by_kind[k];
+        }
+    }
+    ev.evaluations += cws.pulses;
+    ev.add("cpu_wave_ear_samples", cws.samples);
+    ev.add("cpu_wave_pulses_bounded_in_cpu_time", cws.pulses);
+    ev.add("cpu_wave_trains_bounded", cws.trains);
+    ev.add("cpu_wave_largest_sampling_gap_T", cws.max_gap);
+    ev.add("cpu_wave_cases_held_by_kind", J::Arr((0..4).map(|k| jobj! {"kind"=>CPU_WAVE_KINDS[k], "cases"=>cws.by_kind[k]}).collect()));
     ev.assumptions.push("zero-length TAP blocks are outside the domain of C11 (no flag byte)".into());
     ev.assumptions.push("edge time = end of the process_clocks call after which current_bit() differs".into());
     if only.is_some() {
@@ -538,6 +761,7 @@ pub fn run(ctx: &Ctx) -> Evidence {
     for i in 0..6 {
         ctx.require(&format!("tapes under partition {:?}", STEP_MODES[i]), modes[i], 4);
     }
+    ctx.require("cpu-wave pulses bounded in CPU time", cws.pulses, n_cw as u64 * 500);
     ctx.require("ear-port cases that saw both tape levels", eb, n_ear as u64 / 2);
     ctx.require("system-level requests compared", reqs as u64, (n_sys as u64 * 3) / 2 / 2);
     ctx.require("system-level successful real-time loads", okl as u64, n_sys as u64 / 8);
